@@ -32,7 +32,10 @@ static void ev_ll(const char *kind, double lat, double lng, int res, H3Index cel
             Contain k = cell_contains(&c, &cb, &g);
             long double dev = k.inside == 1 ? 0 : k.dist;
             long double tol = tol_of(lat);
-            fprintf(vt_out, ",\"dev\":%ld,\"tol\":%ld", femto(dev), femto_floor(tol));
+            /* integers for TLC (32 bit): units of 1e-15 rad, or of tol / 1e9 when the property's own tolerance is wider than the cap (next
+               to the poles it reaches radians): the comparison dev <= tol survives the scaling */
+            if (tol * 1e15L >= 1e9L) { long double u = tol / 1e9L; long double dv = dev / u; fprintf(vt_out, ",\"dev\":%ld,\"tol\":%ld", dv < (long double)CAP ? (long)ceill(dv) : CAP, 1000000000L); }
+            else fprintf(vt_out, ",\"dev\":%ld,\"tol\":%ld", femto(dev), femto_floor(tol));
             if (dev > worst_dev) worst_dev = dev;
             long ppm = (long)(dev / tol * 1e6L); if (ppm > worst_ratio_ppm) worst_ratio_ppm = ppm;
         } else fprintf(vt_out, ",\"dev\":%ld,\"tol\":0", CAP);
